@@ -30,7 +30,7 @@ func init() {
 		ID:      "C11",
 		Level:   "other",
 		Explain: "The trigger-free equations compare two configurations on all inputs and are not decided. Decided are two clauses: (G) extension.GFM's Extend consists of exactly one Extend(m) call on each of the singletons Linkify, Table, Strikethrough, TaskList with the same argument and nothing else, so GFM is its four members by construction; (B) in the render function registered for text nodes, every path on which SoftLineBreak() is true ends with a write containing a newline unless the path skipped it on the result of the East-Asian width predicate — only the predicate may suppress a soft break, so ASCII-only input is rendered the same with the CJK extension. Does NOT decide the equations for Strikethrough, Table, TaskList, Footnote, DefinitionList, Typographer, Linkify or escaped space.",
-		Rules:   []func(*World, *Report){ruleGFMComposition, ruleSoftBreakKept, ruleEscapedSpaceExact, ruleTriggerSets, ruleTableNeedsDash, ruleDecliningParserRestored, ruleDecliningParserLeavesNoNode, ruleLinkifyNeedsItsTriggers, ruleExtendOnlyRegisters, ruleTypographerByteSet},
+		Rules:   []func(*World, *Report){ruleGFMComposition, ruleSoftBreakKept, ruleEscapedSpaceExact, ruleTriggerSets, ruleTableNeedsDash, ruleDecliningParserRestored, ruleDecliningParserLeavesNoNode, ruleLinkifyNeedsItsTriggers, ruleExtendOnlyRegisters, ruleTypographerByteSet, ruleFootnoteNeedsCaret},
 	})
 }
 
